@@ -27,6 +27,7 @@ type Case struct {
 	Modes      []string `json:"modes,omitempty"`
 	DSSE       bool     `json:"dsse,omitempty"`
 	Cert       bool     `json:"cert,omitempty"`
+	Inter      string   `json:"intermediates,omitempty"` // functionary certificates two intermediates below the root: separate-files | bundle | withheld
 	Lstrip     bool     `json:"lstrip,omitempty"`
 	NoMetaDir  bool     `json:"no_metadata_directory,omitempty"`
 	Output     string   `json:"output,omitempty"` // silent | one-line | multi-line
@@ -64,7 +65,9 @@ var funcKeys = []string{"ed1", "ed2", "ed3"}
 type chain struct {
 	dir, proj, links, layout string
 	certs                    []*gen.Cert
-	root                     *gen.Cert
+	root, issuer             *gen.Cert
+	interFiles               []string
+	bundle                   string
 	prodNames                []string
 	failed                   string
 }
@@ -93,6 +96,19 @@ func produce(base string, cs Case) *chain {
 	if cs.Cert {
 		nb, na := gen.Wide()
 		ch.root = gen.NewCert(gen.Key("p256b"), nil, gen.Attr{CN: "root"}, true, nb, na)
+		ch.issuer = ch.root
+		if cs.Inter != "" {
+			// root -> intermediate 1 -> intermediate 2 -> functionaries; the layout knows the root only and
+			// the verifier is handed the intermediates (one file each, or both in one file) or not
+			m1 := gen.NewCert(gen.Key("p256e"), ch.root, gen.Attr{CN: "intermediate 1"}, true, nb, na)
+			m2 := gen.NewCert(gen.Key("p256f"), m1, gen.Attr{CN: "intermediate 2"}, true, nb, na)
+			ch.issuer = m2
+			ch.interFiles = []string{filepath.Join(ch.dir, "inter1.pem"), filepath.Join(ch.dir, "inter2.pem")}
+			os.WriteFile(ch.interFiles[0], m1.PEM, 0o644)
+			os.WriteFile(ch.interFiles[1], m2.PEM, 0o644)
+			ch.bundle = filepath.Join(ch.dir, "chain.pem")
+			os.WriteFile(ch.bundle, append(append([]byte{}, m2.PEM...), m1.PEM...), 0o644)
+		}
 	}
 	common := func(i int) []string {
 		a := []string{"-n", stepName(i), "-k", keyFile(funcKeys[i])}
@@ -106,7 +122,7 @@ func produce(base string, cs Case) *chain {
 			a = append(a, "--use-dsse")
 		}
 		if cs.Cert {
-			c := gen.NewCert(gen.Key(funcKeys[i]), ch.root, gen.Attr{CN: "functionary"}, false, ch.root.X.NotBefore, ch.root.X.NotAfter)
+			c := gen.NewCert(gen.Key(funcKeys[i]), ch.issuer, gen.Attr{CN: "functionary"}, false, ch.root.X.NotBefore, ch.root.X.NotAfter)
 			ch.certs = append(ch.certs, c)
 			p := filepath.Join(ch.dir, fmt.Sprintf("cert%d.pem", i))
 			os.WriteFile(p, c.PEM, 0o644)
@@ -326,7 +342,7 @@ func tamper(base string, ch *chain, cs Case) (layout, links string, keyFiles []s
 	return
 }
 
-func libVerify(layout, links string, keyFiles []string, vdir string) error {
+func libVerify(layout, links string, keyFiles []string, vdir string, inter ...[]byte) error {
 	md, err := intoto.LoadMetadata(layout)
 	if err != nil {
 		return err
@@ -341,7 +357,7 @@ func libVerify(layout, links string, keyFiles []string, vdir string) error {
 	}
 	os.Chdir(vdir)
 	defer os.Chdir("/")
-	_, err = intoto.InTotoVerify(md, keys, links, "", map[string]string{}, nil, false)
+	_, err = intoto.InTotoVerify(md, keys, links, "", map[string]string{}, inter, false)
 	return err
 }
 
@@ -359,6 +375,9 @@ func optTag(cs Case) string {
 	}
 	if cs.Cert {
 		o = append(o, "cert")
+	}
+	if cs.Inter != "" {
+		o = append(o, "intermediates-"+cs.Inter)
 	}
 	if cs.Lstrip {
 		o = append(o, "lstrip")
@@ -398,12 +417,27 @@ func judgeChain(c *mcx.Ctx, cs Case, ch *chain) (obs, sig, class string) {
 	}
 	layout, links, keyFiles, vdir, accept := tamper(c.Work, ch, cs)
 	args := []string{"verify", "-l", layout, "-d", links, "-k", strings.Join(keyFiles, ",")}
+	var interPems [][]byte
+	switch cs.Inter {
+	case "separate-files":
+		args = append(args, "-i", strings.Join(ch.interFiles, ","))
+		for _, f := range ch.interFiles {
+			b, _ := os.ReadFile(f)
+			interPems = append(interPems, b)
+		}
+	case "bundle":
+		args = append(args, "-i", ch.bundle)
+		b, _ := os.ReadFile(ch.bundle)
+		interPems = append(interPems, b)
+	case "withheld":
+		accept = false
+	}
 	rc, out := sh(vdir, args...)
 	c.Impl(1)
 	// the library on the very same files, in a second copy of the verification directory
 	v2 := gen.FreshDir(c.Work, "verify-lib")
 	exec.Command("sh", "-c", "cp -r "+vdir+"/. "+v2+"/ && rm -f "+v2+"/*.link").Run()
-	lerr := libVerify(layout, links, keyFiles, v2)
+	lerr := libVerify(layout, links, keyFiles, v2, interPems...)
 	c.Impl(1)
 	obs = fmt.Sprintf("verify exit status %d; library error: %v; construction: accept=%v", rc, lerr, accept)
 	if rc != 0 {
@@ -563,7 +597,8 @@ func enumerate(thorough bool, emit func(Case)) {
 		modeSets = append(modeSets, []string{"run", "record", "run"}, []string{"record", "run", "record"}, []string{"run", "run", "record"}, []string{"record", "run", "run"})
 	}
 	opts := []Case{{}, {DSSE: true}, {Cert: true}, {Lstrip: true}, {NoMetaDir: true}, {Output: "one-line"}, {Output: "multi-line"}, {TwoSigners: true},
-		{DSSE: true, Output: "multi-line"}, {DSSE: true, Cert: true}, {DSSE: true, TwoSigners: true}, {Lstrip: true, NoMetaDir: true}, {OddNames: true}, {OddNames: true, Lstrip: true}, {OddNames: true, DSSE: true}}
+		{DSSE: true, Output: "multi-line"}, {DSSE: true, Cert: true}, {DSSE: true, TwoSigners: true}, {Lstrip: true, NoMetaDir: true}, {OddNames: true}, {OddNames: true, Lstrip: true}, {OddNames: true, DSSE: true},
+		{Cert: true, Inter: "separate-files"}, {Cert: true, Inter: "bundle"}, {Cert: true, Inter: "withheld"}}
 	if thorough {
 		for _, d := range []bool{false, true} {
 			for _, l := range []bool{false, true} {
@@ -682,7 +717,7 @@ func replay(c *mcx.Ctx, raw json.RawMessage) (string, string) {
 func init() {
 	mcx.Register(&mcx.Driver{
 		ID: "C20", Run: run, Replay: replay,
-		Rule: "histories of CLI invocations of the binary built from the current tree: supply chains of 1..3 steps, each step carried out with `run` or with `record start` / edit / `record stop` (all mode sequences up to 2 steps, uniform ones for 3; thorough: more), under 15 option sets (default, product names with a comma and a space plus CR LF content, --use-dsse, --cert, --lstrip-paths, no --metadata-directory, one-line and multi-line command output, two layout signers via `sign` twice, and combinations; thorough: the full product of five options), layout signed with `in-toto sign`; then every single tampering of 14 (none, product line endings changed only, product byte changed / added / removed, link digest edited / re-signed by a foreign key / deleted, layout field edited / re-signed by a foreign key, wrong layout key, extra layout key that did not sign, expired layout, second key supplied) followed by `verify`; " +
+		Rule: "histories of CLI invocations of the binary built from the current tree: supply chains of 1..3 steps, each step carried out with `run` or with `record start` / edit / `record stop` (all mode sequences up to 2 steps, uniform ones for 3; thorough: more), under 18 option sets (default, product names with a comma and a space plus CR LF content, --use-dsse, --cert, --cert with functionary certificates two intermediates below the layout root and the intermediates handed to `verify -i` as one file each, as one bundle file, or withheld, --lstrip-paths, no --metadata-directory, one-line and multi-line command output, two layout signers via `sign` twice, and combinations; thorough: the full product of five options), layout signed with `in-toto sign`; then every single tampering of 14 (none, product line endings changed only, product byte changed / added / removed, link digest edited / re-signed by a foreign key / deleted, layout field edited / re-signed by a foreign key, wrong layout key, extra layout key that did not sign, expired layout, second key supplied) followed by `verify`; " +
 			"oracle: exit status 0 <=> the library called in-process on the very same files returns nil, honest => 0, tampered => non-zero, links are at the names the verifier globs for, no preliminary link is left; separately `sign --verify` x {right key, public key, wrong key, tampered file} x wrappers, `key id` / `key layout` for every file of the key pool, `match-products` for the 81 combinations of two link products and two local files. states = produced chains, transitions = CLI invocations.",
 		Assumptions: []string{"the CLI is built with plain `go build` from /repo (no overlay)", "observations are compared after replacing scratch paths"},
 		Workers:     16,
